@@ -377,6 +377,10 @@ def _stage_execution(I, obj):
             return rec.fields["_execution"]
         v = new_symbolic(I, "Workflow", f"{rec.meta.get('name', 'stage')}.execution")
         rec.fields["_execution"] = v
+        if getattr(I.registry, "appendable_stages", False):
+            # the unit appends to execution.stages: present the (arbitrary) loaded list as a derived list over itself
+            base = I.getattr(v, "stages")
+            I.st.objs[v.oid].fields["stages"] = I.ops.new_derived(I.ops.segments(base))
         if rec.meta.get("loaded"):
             # the execution row comes with the loaded stage: remember its durable status (ghost) for the legal-write check
             I.st.objs[v.oid].meta["loaded"] = {"kind": "execution", "how": "stage.execution", "status": I.getattr(v, "status")}
